@@ -333,6 +333,108 @@ Proof.
 Qed.
 Print Assumptions legal_chans_length.
 
+(* ---------- the cut distance IS the n_keep-th smallest distance ---------- *)
+Lemma map_fst_combine_seq (l : list Z) s : map fst (combine l (seq s (length l))) = l.
+Proof.
+  revert s; induction l as [|x l IH]; intros s; cbn [length seq combine map fst]; [reflexivity|].
+  rewrite IH. reflexivity.
+Qed.
+
+Lemma sortedk_map_fst {V} (l : list (Z * V)) : sortedk l -> Sorted Z.le (map fst l).
+Proof.
+  induction 1 as [|x|x y r Hxy Hs IH]; cbn [map]; [constructor|repeat constructor|].
+  constructor; [exact IH|]. constructor. exact Hxy.
+Qed.
+
+(* sorted_dists d b is the non-decreasing rearrangement of the distances from b *)
+Theorem sorted_dists_spec d b :
+  Permutation (sorted_dists d b) (dists_from d b) /\ StronglySorted Z.le (sorted_dists d b).
+Proof.
+  unfold sorted_dists, dists_from.
+  destruct (nth_error (d_px d) b) as [x0|]; [|split; constructor].
+  destruct (nth_error (d_py d) b) as [y0|]; [|split; constructor].
+  cbv zeta.
+  set (dd := zip_with Z.add (map (fun x => (x - x0) * (x - x0)) (d_px d))
+                            (map (fun y => (y - y0) * (y - y0)) (d_py d))).
+  split.
+  - apply Permutation_trans with (map fst (combine dd (seq 0 (length dd)))).
+    + apply Permutation_map. apply isort_perm.
+    + rewrite map_fst_combine_seq. apply Permutation_refl.
+  - apply Sorted_StronglySorted; [intros x y z; apply Z.le_trans|].
+    apply sortedk_map_fst. apply isort_sorted.
+Qed.
+Print Assumptions sorted_dists_spec.
+
+Lemma SS_split (l1 l2 : list Z) x : StronglySorted Z.le (l1 ++ x :: l2) ->
+  Forall (fun y => y <= x) l1 /\ Forall (fun y => x <= y) l2.
+Proof.
+  induction l1 as [|a l1 IH]; cbn [app]; intros H; inversion H as [|a' l' Hs Hall]; subst.
+  - split; [constructor|exact Hall].
+  - destruct (IH Hs) as [H1 H2]. split; [|exact H2]. constructor; [|exact H1].
+    rewrite Forall_forall in Hall. apply Hall. apply in_elt.
+Qed.
+
+Lemma filter_len_le (f : Z -> bool) l : (length (filter f l) <= length l)%nat.
+Proof. induction l as [|x l IH]; cbn [filter length]; [lia|]. destruct (f x); cbn [length]; lia. Qed.
+
+Lemma filter_all (f : Z -> bool) l : Forall (fun x => f x = true) l -> filter f l = l.
+Proof. induction 1 as [|x l Hx _ IH]; cbn [filter]; [reflexivity|]. rewrite Hx, IH. reflexivity. Qed.
+
+Lemma filter_none_Z (f : Z -> bool) l : Forall (fun x => f x = false) l -> filter f l = [].
+Proof. induction 1 as [|x l Hx _ IH]; cbn [filter]; [reflexivity|]. rewrite Hx, IH. reflexivity. Qed.
+
+Lemma filter_len_perm (f : Z -> bool) l l' : Permutation l l' -> length (filter f l) = length (filter f l').
+Proof.
+  induction 1 as [|x l l' _ IH|x y l|l l' l'' _ IH1 _ IH2]; cbn [filter]; [reflexivity| | |lia].
+  - destruct (f x); cbn [length]; lia.
+  - destruct (f x), (f y); cbn [length]; lia.
+Qed.
+
+(* order statistic: fewer than n values are < the n-th smallest, at least n are <= it *)
+Lemma kth_count (s : list Z) (n : nat) : StronglySorted Z.le s -> (1 <= n <= length s)%nat ->
+  (length (filter (fun x => (x <? nth (n - 1)%nat s (-1))%Z) s) < n)%nat /\
+  (n <= length (filter (fun x => (x <=? nth (n - 1)%nat s (-1))%Z) s))%nat.
+Proof.
+  intros Hs Hn. set (D := nth (n - 1) s (-1)).
+  destruct (nth_split s (-1) (n := (n - 1)%nat)) as (l1 & l2 & Heq & Hlen); [lia|].
+  fold D in Heq. rewrite Heq in Hs. apply SS_split in Hs. destruct Hs as [H1 H2].
+  rewrite Heq, !filter_app, !app_length. cbn [filter]. split.
+  - replace (D <? D) with false by lia.
+    rewrite (filter_none_Z (fun x => x <? D) l2).
+    + pose proof (filter_len_le (fun x => x <? D) l1). cbn [length]. lia.
+    + eapply Forall_impl; [|exact H2]. cbv beta. intros a Ha. lia.
+  - replace (D <=? D) with true by lia.
+    rewrite (filter_all (fun x => x <=? D) l1).
+    + cbn [length]. lia.
+    + eapply Forall_impl; [|exact H1]. cbv beta. intros a Ha. lia.
+Qed.
+
+(* in distances: fewer than n_keep distances from b are < cut_of d b, at least n_keep are <= it *)
+Theorem cut_of_is_kth d b : (b < n_channels d)%nat -> length (d_py d) = n_channels d ->
+  (length (filter (fun x => (x <? cut_of d b)%Z) (dists_from d b)) < n_keep d)%nat /\
+  (n_keep d <= length (filter (fun x => (x <=? cut_of d b)%Z) (dists_from d b)))%nat /\
+  length (dists_from d b) = n_channels d.
+Proof.
+  intros Hb Hpy. destruct (sorted_dists_spec d b) as [Hperm Hss].
+  assert (Hlen : length (dists_from d b) = n_channels d).
+  { unfold dists_from, n_channels in *.
+    destruct (nth_error (d_px d) b) as [x0|] eqn:Ex; [|apply nth_error_None in Ex; lia].
+    destruct (nth_error (d_py d) b) as [y0|] eqn:Ey; [|apply nth_error_None in Ey; lia].
+    clear Ex Ey Hperm Hss Hb.
+    generalize (fun x => (x - x0) * (x - x0)) as f, (fun y => (y - y0) * (y - y0)) as g.
+    intros f g. revert Hpy. generalize (d_py d) as py. generalize (d_px d) as px.
+    induction px as [|x px IH]; intros [|y py] Hl; cbn [length map zip_with] in *; try lia.
+    rewrite IH; lia. }
+  pose proof (Permutation_length Hperm) as Hl2.
+  assert (Hk : (1 <= n_keep d <= length (sorted_dists d b))%nat).
+  { unfold n_keep, n_closest_channels. change (Z.to_nat 12) with 12%nat. lia. }
+  destruct (kth_count (sorted_dists d b) (n_keep d) Hss Hk) as [H1 H2].
+  fold (cut_of d b) in H1, H2.
+  rewrite (filter_len_perm _ _ _ Hperm) in H1. rewrite (filter_len_perm _ _ _ Hperm) in H2.
+  repeat split; assumption.
+Qed.
+Print Assumptions cut_of_is_kth.
+
 (* ---------- non-vacuity: the 16-channel linear probe of Corr.ex_line, peak 8, tie between channels 2 and 14 ---------- *)
 Example ex_line_sound :
   peak_chan ex_line false 0 = Some 8%nat /\ cut_of ex_line 8 = 14400 /\
